@@ -46,6 +46,12 @@ pub fn cores() -> Vec<(&'static str, Exp)> {
         ("max{-2,-1}", Exp::Max(vec![num(-2.0), num(-1.0)])),
         ("x+min{3,2}", bin(BinOp::Add, x(), Exp::Min(vec![num(3.0), num(2.0)]))),
         ("abs{-2}-x", bin(BinOp::Sub, Exp::Abs(num(-2.0).to_box()), x())),
+        // three operands with different ranges, the first one dominated (pruned) before two retained ones
+        ("max{b-5,x,2c}", Exp::Max(vec![bin(BinOp::Sub, b(), num(5.0)), x(), bin(BinOp::Mul, num(2.0), c())])),
+        ("min{b+5,x,2c}", Exp::Min(vec![bin(BinOp::Add, b(), num(5.0)), x(), bin(BinOp::Mul, num(2.0), c())])),
+        // sums of n terms divided by n: rendered as avg blocks by the text engines
+        ("(x+b)/2", bin(BinOp::Div, bin(BinOp::Add, x(), b()), num(2.0))),
+        ("(abs{x}+1+b+c)/4", bin(BinOp::Div, bin(BinOp::Add, bin(BinOp::Add, bin(BinOp::Add, Exp::Abs(x().to_box()), num(1.0)), b()), c()), num(4.0))),
     ]
 }
 
